@@ -95,6 +95,12 @@ def texts(draw, enc, max_lines=6, nonempty=True):
     final terminator present or absent."""
     n = draw(st.integers(1, max_lines))
     lines = draw(st.lists(line_st(enc), min_size=n, max_size=n))
+
+    if draw(st.integers(0, 24)) == 0:
+        # many short lines
+        n = draw(st.sampled_from([99, 100, 101, 999, 1000, 1001]))
+        lines = ['l%d' % i for i in range(n)]
+
     style = draw(st.sampled_from(['lf', 'crlf', 'mixed', 'mixed']))
     parts = []
 
